@@ -149,6 +149,35 @@ def run(ctx, B):
     if np.any(np.abs(PT - DT) > 1e-12 * DT) or np.any(pt["v0"] < 0) or np.any(~np.isfinite(pt["v0"])):
         V("DCSP_Thoms|azimuthal-average", "mean_phi DCSP_Thoms != DCS_Thoms: %r vs %r" % (PT.tolist()[:4], DT.tolist()[:4]), [])
     nt += PK.size + len(th)
+    # ---- scattering directions next to the polarisation axis and its images (theta near pi/2 +- k pi, phi near k pi) and near the other special angles:
+    #      fine azimuthal quadrature (720 points: exact for the low-degree trigonometric polynomials involved) and the closed Thomson form point by point
+    dth = [0.0, 1e-10, 1e-6, 1e-3, 0.01, 0.03, 0.06, 0.09, 0.2]
+    thn = np.array(sorted(set([t0 + sg * d for t0 in (math.pi / 2, -math.pi / 2, 3 * math.pi / 2, 0.0, math.pi) for d in dth for sg in (1, -1)])))
+    phf = np.arange(720) * (2 * math.pi / 720)
+    Tn, Pn = domains.product(thn, phf)
+    ptn = X.call("DCSP_Thoms", Tn, Pn); dtn = X.call("DCS_Thoms", thn)
+    ctx.add(evaluations=len(Tn) + len(thn))
+    avg = ptn["v0"].reshape(len(thn), len(phf)).mean(axis=1)
+    with np.errstate(all="ignore"):
+        bada = ~(np.abs(avg - dtn["v0"]) <= 1e-12 * dtn["v0"])
+        closed = RE2 * (1.0 - np.sin(Tn) ** 2 * np.cos(Pn) ** 2)
+        badc = ~(np.abs(ptn["v0"] - closed) <= 1e-14 * RE2) | ((ptn["flags"] & F_ERR) != 0)
+    for j in np.nonzero(bada)[0][:5]:
+        V("DCSP_Thoms|azimuthal-average|near-axis", "mean over 720 azimuths of DCSP_Thoms(%r, phi) = %r but DCS_Thoms = %r" % (float(thn[j]), float(avg[j]), float(dtn["v0"][j])),
+          [dict(fn="DCS_Thoms", args=[float(thn[j])])])
+    for j in np.nonzero(badc)[0][:5]:
+        V("DCSP_Thoms|closed-form|near-axis", "DCSP_Thoms(%r,%r) = %r but r_e^2 (1 - sin^2 theta cos^2 phi) = %r" % (float(Tn[j]), float(Pn[j]), float(ptn["v0"][j]), float(closed[j])),
+          [dict(fn="DCSP_Thoms", args=[float(Tn[j]), float(Pn[j])], expect=dict(type="value", value=float(closed[j]), rtol=1e-9))])
+    # the same directions for the polarised Klein-Nishina form at three energies: average against DCS_KN
+    for Ek in (1.0, 100.0, 1e4):
+        pkn = X.call("DCSP_KN", np.full(len(Tn), Ek), Tn, Pn); dkn_ = X.call("DCS_KN", np.full(len(thn), Ek), thn)
+        ctx.add(evaluations=len(Tn) + len(thn))
+        avk = pkn["v0"].reshape(len(thn), len(phf)).mean(axis=1)
+        with np.errstate(all="ignore"):
+            badk = ~(np.abs(avk - dkn_["v0"]) <= 1e-11 * dkn_["v0"])
+        for j in np.nonzero(badk)[0][:3]:
+            V("DCSP_KN|azimuthal-average|near-axis", "mean over 720 azimuths of DCSP_KN(%g, %r, phi) = %r but DCS_KN = %r" % (Ek, float(thn[j]), float(avk[j]), float(dkn_["v0"][j])), [])
+    nt += 4 * len(thn)
     # ---- evenness and 2pi periodicity ------------------------------------------------------------
     tt = th[1:-1]
     for fn, mk in (("DCS_Thoms", lambda t: (t,)), ("DCS_KN", lambda t: (np.full(len(t), 17.4), t)), ("ComptonEnergy", lambda t: (np.full(len(t), 59.5), t)),
